@@ -11,7 +11,7 @@ CHECK = dict(
          "servers that never accept more, refused monolithic PUT, early 201, 5xx for ever on PATCH/PUT/status). "
          "Non-trivial = at least one injected fault was delivered, or >= 2 hosts configured; distinct by (request list / operation + parameters, per-host words, class faults, limit).",
     jobs=[REPLAY,
-          rapid("prop", "TestVerifProp", 8000, 320000, sq=16, st=16),
+          rapid("prop", "TestVerifProp", 8000, 240000, sq=16, st=16),
           plain("exhaustive", "TestVerifExhaustive", sq=8, st=16)],
     technique="property-based testing (rapid) with an in-process model registry that owns the transport and executes generated fault plans; exhaustive enumeration of short fault words; "
               "log-based oracles (attempt counts per logical request, request-count caps, monotonic model timestamps, first-contact order, target host of every request, concurrency-slot probe) plus a fault-free twin run",
